@@ -191,6 +191,23 @@ CHECKS.update({
         technique='Coq proof (stable-sort/failsafe lemmas + counting invariants over source-generated skeletons) + reflexivity ties + fault-injection correspondence', ref='6/C09'),
 })
 
+CHECKS.update({
+    'C08': dict(
+        text='Coq theorems over the dispatch model of C02 extended with per-level config collection, set_conf, find_config, the '
+             'Toolbox enter/exit protocol and unrepr: request.config equals fold_left overlay over [global; root _cp_config; '
+             'section "/"; per trail entry its _cp_config then the sections of the prefixes it consumed; default handler\'s '
+             'config right after its owner] for both dispatchers and every tree/config/path (c08_merge, c08_value), deeper wins, '
+             'section beats _cp_config at the same level, a section for a path that is not a segment prefix of the request '
+             'contributes nothing (string-prefix siblings included), find_config = longest-prefix hit, a tool is set up iff the '
+             'merged tools.t.on is truthy with exactly the merged kwargs, toolmaps probes equal merged-config probes, and '
+             'build(to_ast v) = canon v for every well-formed literal; the _Builder method vocabulary and the on/priority '
+             'literals are regenerated from the sources each run (ties); differential runs over scope assignments x paths x '
+             'INI literals with an independent reference merge.',
+        note='unrepr theorem is partial: dict literals keyed by bools/floats/complex (cross-type key equality) are covered by D and '
+             'the oracle only; merge theorems assume each level dict has every key once; configparser tokenisation is an oracle.',
+        technique='Coq proof (refinement of the trail merge to a fold of overlays; structural induction over literals) + generated ties + differential correspondence', ref='6/C08'),
+})
+
 PENDING = {}
 
 
